@@ -223,6 +223,19 @@ def work_multi_json(chunk, st):
             continue
         if not isinstance(doc, list) or len(doc) != 2:
             st.violation('multi-target-json-shape:%s' % opt, dict(d, got=type(doc).__name__))
+    # the same target listed more than once, in several spellings
+    from mc import runner
+    for lines in (['host0.example', 'host0.example'], ['host0.example', 'host1.example', 'host0.example:22'], ['host1.example', ' host1.example ']):
+        for opt in ('-j', '-jj'):
+            w = MT.build_world(['CLEAN', 'TERR'])
+            res = runner.run_cli(['-n', '--skip-rate-test', opt, '-T', MT.targets_file(lines), '--threads', '2'], w)
+            st.execution(res.world, outcome=('multi-json-dup', res.status, opt), root=('multi-json-dup', tuple(lines), opt), nontrivial=('multi-json-dup', tuple(lines), opt))
+            try:
+                doc = json.loads(res.stdout)
+                if not isinstance(doc, list):
+                    st.violation('multi-target-json-shape:%s' % opt, {'lines': lines, 'stdout_head': res.stdout[:200]})
+            except ValueError as e:
+                st.violation('multi-target-json-not-one-document:%s' % opt, {'lines': lines, 'error': str(e), 'stdout_tail': res.stdout[-200:]})
     st.sample({'multi_target_json': [list(c) for c in chunk[:2]]}, cap=3)
 
 
